@@ -456,6 +456,254 @@ def flatten(tree):
     return done
 
 
+def inline_generators(tree, resolve):
+    """`for <targets> in gen(<names>): BODY` over a generator of the package whose body is one loop nest with a single
+    `yield <tuple or record of its loop variables>` in the innermost loop reads as that loop nest with BODY in place of
+    the yield, the generator's loop variables renamed to the targets that receive them.  resolve(name) -> FunctionDef of
+    the generator (module-level here or imported) or None.  Only flat loops without break / else, with plain-name
+    targets and arguments."""
+    done = []
+
+    def nest_of(g):
+        body = [x for x in g.body if not _is_doc(x)]
+        if len(body) != 1 or not isinstance(body[0], ast.For) or g.decorator_list or g.args.vararg or g.args.kwarg:
+            return None
+        chain = []
+        cur = body[0]
+        while True:
+            if cur.orelse:
+                return None
+            chain.append(cur)
+            if len(cur.body) == 1 and isinstance(cur.body[0], ast.For):
+                cur = cur.body[0]
+                continue
+            break
+        inner = chain[-1]
+        if len(inner.body) != 1 or not isinstance(inner.body[0], ast.Expr) or not isinstance(inner.body[0].value, ast.Yield):
+            return None
+        if sum(1 for n in ast.walk(g) if isinstance(n, (ast.Yield, ast.YieldFrom, ast.Return))) != 1:
+            return None
+        y = inner.body[0].value.value
+        if isinstance(y, ast.Tuple):
+            elts = y.elts
+        elif isinstance(y, ast.Call) and isinstance(y.func, ast.Name) and y.func.id[:1].isupper() and not y.keywords:
+            elts = y.args           # a record built positionally from the loop variables
+        else:
+            return None
+        if not all(isinstance(e, ast.Name) for e in elts):
+            return None
+        return chain, [e.id for e in elts]
+
+    for fn in [n for n in ast.walk(tree) if isinstance(n, FUNCS)]:
+        for blk, i, st in _own_statements(fn):
+            if not isinstance(st, ast.For) or st.orelse or not isinstance(st.iter, ast.Call) or not isinstance(st.iter.func, ast.Name):
+                continue
+            if st.iter.keywords or not all(isinstance(a, ast.Name) for a in st.iter.args):
+                continue
+            g = resolve(st.iter.func.id)
+            if g is None or not isinstance(g, ast.FunctionDef) or g is fn:
+                continue
+            r = nest_of(g)
+            if r is None:
+                continue
+            chain, ynames = r
+            params = [a.arg for a in g.args.args]
+            if len(params) != len(st.iter.args):
+                continue
+            tg = st.target.elts if isinstance(st.target, ast.Tuple) else None
+            if tg is None or len(tg) != len(ynames) or not all(isinstance(t, ast.Name) for t in tg):
+                continue
+            if any(isinstance(n, ast.Break) for n in ast.walk(st)):
+                continue
+            stored = {n.id for n in ast.walk(g) if isinstance(n, ast.Name) and isinstance(n.ctx, ast.Store)}
+            if len(set(ynames)) != len(ynames) or not set(ynames) <= stored or (stored & set(params)):
+                continue
+            ren = {}
+            k = 0
+            for yn, t in zip(ynames, tg):
+                if t.id == '_':
+                    k += 1
+                    ren[yn] = '_%d' % k
+                else:
+                    ren[yn] = t.id
+            caller_names = {n.id for n in ast.walk(fn) if isinstance(n, ast.Name)} | {a.arg for a in fn.args.args}
+            for nm in stored - set(ynames):
+                ren[nm] = nm + '__it' if nm in caller_names or nm in ren.values() else nm
+            for p_, a in zip(params, st.iter.args):
+                ren[p_] = a.id
+
+            class _Ren(ast.NodeTransformer):
+                def visit_Name(self_, n):
+                    if n.id in ren:
+                        return ast.copy_location(ast.Name(id=ren[n.id], ctx=n.ctx), n)
+                    return n
+            outer = _Ren().visit(_clone(chain[0]))
+            cur = outer
+            while len(cur.body) == 1 and isinstance(cur.body[0], ast.For):
+                cur = cur.body[0]
+            cur.body = st.body
+            for n in ast.walk(outer):
+                if isinstance(n, ast.For) and not hasattr(n, 'lineno'):
+                    n.lineno = st.lineno
+            ast.copy_location(outer, st)
+            ast.fix_missing_locations(outer)
+            blk[blk.index(st)] = outer
+            done.append((g.name, fn.name))
+    if done:
+        _link(tree)
+    return done
+
+
+def inline_skeletons(tree):
+    """A module-level "skeleton" -- a function whose body is nested definitions and one final `return <expr>`, and which
+    calls some of its parameters (the parts that vary are handed in as functions) -- is read, at a call site of the form
+    `return skeleton(args)` / `x = skeleton(args)` in another module-level function, as its body written out there with
+    the arguments in place of the parameters.  Only when every argument is a name, a constant or a lambda (nothing to
+    evaluate twice), the skeleton does not assign its parameters, and it is not recursive itself."""
+    done = []
+    defs = {f.name: f for f in tree.body if isinstance(f, ast.FunctionDef)}
+
+    def skeleton(g):
+        if g.decorator_list or g.args.vararg or g.args.kwarg or g.args.kwonlyargs or getattr(g.args, 'posonlyargs', None):
+            return None
+        body = [x for x in g.body if not _is_doc(x)]
+        if len(body) < 2 or not isinstance(body[-1], ast.Return) or body[-1].value is None \
+                or not all(isinstance(x, ast.FunctionDef) for x in body[:-1]):
+            return None
+        params = [a.arg for a in g.args.args]
+        called = {n.func.id for n in ast.walk(g) if isinstance(n, ast.Call) and isinstance(n.func, ast.Name)}
+        if not (called & set(params)) or g.name in called:
+            return None
+        for n in ast.walk(g):
+            if isinstance(n, ast.Name) and n.id in params and not isinstance(n.ctx, ast.Load):
+                return None
+            if isinstance(n, (ast.Global, ast.Nonlocal)):
+                return None
+            if isinstance(n, (ast.FunctionDef, ast.Lambda)) and n is not g and any(a.arg in params for a in n.args.args):
+                return None         # a nested parameter shadows one of the skeleton's
+        return body
+
+    for caller in list(defs.values()):
+        for i, st in enumerate(list(caller.body)):
+            call = st.value if isinstance(st, (ast.Return, ast.Assign)) and isinstance(st.value, ast.Call) else None
+            if call is None or not isinstance(call.func, ast.Name) or call.func.id not in defs or defs[call.func.id] is caller:
+                continue
+            if isinstance(st, ast.Assign) and not (len(st.targets) == 1 and isinstance(st.targets[0], ast.Name)):
+                continue
+            g = defs[call.func.id]
+            body = skeleton(g)
+            if body is None:
+                continue
+            params = [a.arg for a in g.args.args]
+            if any(isinstance(a, ast.Starred) for a in call.args) or any(k.arg is None for k in call.keywords) or len(call.args) > len(params):
+                continue
+            bound = dict(zip(params, call.args))
+            ok = True
+            for k in call.keywords:
+                if k.arg not in params or k.arg in bound:
+                    ok = False
+                bound[k.arg] = k.value
+            dflt = dict(zip(params[len(params) - len(g.args.defaults):], g.args.defaults))
+            for p_ in params:
+                if p_ not in bound:
+                    if p_ in dflt:
+                        bound[p_] = dflt[p_]
+                    else:
+                        ok = False
+            if not ok or not all(isinstance(v, (ast.Name, ast.Constant, ast.Lambda)) for v in bound.values()):
+                continue
+            fn_params = {n.func.id for n in ast.walk(g) if isinstance(n, ast.Call) and isinstance(n.func, ast.Name) and n.func.id in params}
+            if not all(isinstance(bound[p_], ast.Lambda) or (isinstance(bound[p_], ast.Name) and bound[p_].id in defs) for p_ in fn_params):
+                continue
+            own = {n.id for n in ast.walk(caller) if isinstance(n, ast.Name)} | {a.arg for a in caller.args.args}
+            nested_names = [x.name for x in body[:-1]]
+            if any(nm in own for nm in nested_names):
+                continue
+
+            class _Sub(ast.NodeTransformer):
+                def visit_Name(self_, n):
+                    if n.id in bound and isinstance(n.ctx, ast.Load):
+                        return ast.copy_location(_clone(bound[n.id]), n)
+                    return n
+            new_body = []
+            for x in body:
+                c = _clone(x)
+                c = _Sub().visit(c)
+                ast.fix_missing_locations(c)
+                new_body.append(c)
+            ret = new_body[-1]
+            if isinstance(st, ast.Return):
+                last = ast.copy_location(ast.Return(value=ret.value), st)
+            else:
+                last = ast.copy_location(ast.Assign(targets=st.targets, value=ret.value), st)
+            ast.fix_missing_locations(last)
+            pos = caller.body.index(st)
+            caller.body[pos:pos + 1] = new_body[:-1] + [last]
+            done.append((g.name, caller.name))
+    if done:
+        _link(tree)
+    return done
+
+
+def merge_registry(tree):
+    """A module-level list filled by an identity decorator --
+
+        REG = []
+        def register(f): REG.append(f); return f
+        @register
+        def rule_a(..): ..
+
+    -- reads as the list display it builds at import time: the decorators are removed and `REG = [rule_a, ..]` (in
+    definition order) is placed after the last registered function.  Only when every use of the decorator is a bare
+    `@register` on a module-level function and the list is not otherwise assigned at module level."""
+    done = []
+    for d in list(tree.body):
+        if not isinstance(d, ast.FunctionDef) or d.decorator_list or len(d.args.args) != 1 or d.args.vararg or d.args.kwarg:
+            continue
+        body = [x for x in d.body if not _is_doc(x)]
+        p = d.args.args[0].arg
+        if len(body) != 2 or not isinstance(body[1], ast.Return) or not isinstance(body[1].value, ast.Name) or body[1].value.id != p:
+            continue
+        c = body[0]
+        if not (isinstance(c, ast.Expr) and isinstance(c.value, ast.Call) and isinstance(c.value.func, ast.Attribute) and c.value.func.attr == 'append'
+                and isinstance(c.value.func.value, ast.Name) and len(c.value.args) == 1 and isinstance(c.value.args[0], ast.Name)
+                and c.value.args[0].id == p and not c.value.keywords):
+            continue
+        reg = c.value.func.value.id
+        inits = [x for x in tree.body if isinstance(x, (ast.Assign, ast.AnnAssign))
+                 and any(isinstance(t, ast.Name) and t.id == reg for t in (x.targets if isinstance(x, ast.Assign) else [x.target]))]
+        if len(inits) != 1 or inits[0].value is None:
+            continue
+        v = inits[0].value
+        if not ((isinstance(v, ast.List) and not v.elts) or (isinstance(v, ast.Call) and isinstance(v.func, ast.Name) and v.func.id == 'list' and not v.args)):
+            continue
+        uses = [n for n in ast.walk(tree) if isinstance(n, ast.Name) and n.id == d.name]
+        decorated = [f for f in tree.body if isinstance(f, ast.FunctionDef) and any(isinstance(x, ast.Name) and x.id == d.name for x in f.decorator_list)]
+        n_dec = sum(1 for f in decorated for x in f.decorator_list if isinstance(x, ast.Name) and x.id == d.name)
+        if not decorated or len(uses) != n_dec or any(len(f.decorator_list) != 1 for f in decorated):
+            continue
+        if tree.body.index(inits[0]) > tree.body.index(decorated[0]):
+            continue
+        # other module-level changes of the list between its creation and the last registration: leave alone
+        last = tree.body.index(decorated[-1])
+        other = [x for x in tree.body[:last + 1] if x is not inits[0] and x is not d and not isinstance(x, (ast.FunctionDef, ast.ClassDef))
+                 and any(isinstance(n, ast.Name) and n.id == reg for n in ast.walk(x))]
+        if other:
+            continue
+        for f in decorated:
+            f.decorator_list = []
+        new = ast.Assign(targets=[ast.Name(id=reg, ctx=ast.Store())],
+                         value=ast.List(elts=[ast.Name(id=f.name, ctx=ast.Load()) for f in decorated], ctx=ast.Load()))
+        ast.copy_location(new, decorated[-1])
+        new.lineno = new.end_lineno = getattr(decorated[-1], 'end_lineno', decorated[-1].lineno)
+        ast.fix_missing_locations(new)
+        tree.body.insert(last + 1, new)
+        tree.body.remove(inits[0])
+        tree.body.remove(d)
+        done.append((reg, d.name, len(decorated)))
+    return done
+
+
 def merge_dispatch(tree):
     """`@singledispatch def f(x, ..)` with `@f.register(T) def g(x, ..)` implementations reads as one function that
     tests isinstance(x, T) in turn (subclasses before their bases) and falls back to the generic body.  Only when all
